@@ -155,11 +155,14 @@ def run(tier, seed):
                 path = os.path.join(tmp, 'dump.txt')
                 with open(path, 'w') as f:
                     f.write('\n'.join(text) + ('\n' if rng.random() < 0.7 else ''))
-                real_file = dp.parse_dump_file(path, hdr, sf)
+                rp = {'op': 'dumpfile', 'drawer': name, 'format': k, 'padded': pad, 'data_hex': d.hex() if len(d) < 4000 else d[:64].hex() + '... (%d bytes)' % len(d), 'text': text[:50]}
+                try:
+                    real_file = dp.parse_dump_file(path, hdr, sf)
+                except Exception as e:  # noqa  -- what the decoder does with a dump file is an outcome
+                    real_file = ['<%s: %s>' % (type(e).__name__, str(e)[:100])]
                 real_raw = dp.parse_dump_data(memoryview(d), hdr, sf)
                 ck.case(key=('file', k, pad, d), sample={'format': 'bmc' if k == 1 else 'pre-bmc', 'padded': pad, 'len': len(d)})
                 ck.count('file fmt=%d pad=%s' % (k, pad))
-                rp = {'op': 'dumpfile', 'drawer': name, 'format': k, 'padded': pad, 'data_hex': d.hex(), 'text': text[:50]}
                 if real_file != real_raw:
                     ck.fail('decoding a dump file differs from decoding its raw bytes', rp, 'file_equals_raw')
                 filereqs.append('dumpfile %d %d %s' % (did, did, tlist([t + '\n' for t in text], tt)))
@@ -173,6 +176,23 @@ def run(tier, seed):
                 continue
             if r.lines() != real_file:
                 ck.disagree('parse_dump_file differs from model', rp)
+        # ---- table files that are rewritten between two decodes in one process (same path, other content): every region is decoded with the
+        # tables that are in the files NOW, exactly as the stand-alone decoders would
+        import re as _re
+        hdrs, sfs = [h for _, h, _ in drawers], [s_ for _, _, s_ in drawers]
+        if len(drawers) >= 2:
+            ptes = []
+            for h in hdrs:
+                found = _re.findall(r'"([0-9A-Fa-f*]{8})"', open(h, errors='replace').read())
+                ptes += [int(pt.replace('*', rng.choice('0123456789ABCDEF')), 16) for pt in rng.sample(found, min(len(found), 80))]
+            hashes = []
+            for s_ in sfs:
+                hashes += [int(x) for x in _re.findall(r'^\s*([0-9]{1,9})\|\|', open(s_, errors='replace').read(), _re.M)][:12]
+            ilog = b''.join(struct.pack('>HHI', i, i, v) for i, v in enumerate(ptes, 1))
+            body = b''.join(struct.pack('>HHHHII', 1, i, 4, 0x4654, hv, 7) + b'\0\0\0\x2a' + struct.pack('>I', 24) for i, hv in enumerate(hashes, 1))
+            sample = ilog + START + b'INFO'.ljust(12, b'\0') + bytes(4) + struct.pack('>III', 32 + len(body), 1, 0) + body
+            iod.check_rewritten_table_file(ck, 'dump_pte', hdrs, lambda pth: dp.parse_dump_data(memoryview(sample), pth, sfs[0]), rng, 6 if thorough else 2)
+            iod.check_rewritten_table_file(ck, 'dump_strs', sfs, lambda pth: dp.parse_dump_data(memoryview(sample), hdrs[0], pth), rng, 6 if thorough else 2)
         # stand-alone CLI: python -m io_drawer.dump
         for name, hdr, sf in drawers:
             for empty_text in ('', '\n', '# no data lines at all\n\n'):
